@@ -12,7 +12,7 @@ def CableAt (nets : List ANet) (c : CCable) : Prop :=
     c.scalarFlag = n0.item.idx.isNone ∧
     (match n0.kind with
      | .scalar _ => c.lower = 0 ∧ c.wires = [n0.pins.map APin.pin]
-     | .bit _ bn _ => c.wires ≠ [] ∧ c.lower ∈ (busBits bn nets).map (·.1) ∧
+     | .bit _ bn _ _ => c.wires ≠ [] ∧ c.lower ∈ (busBits bn nets).map (·.1) ∧
          ∃ x ∈ (busBits bn nets).map (·.1), c.lower + c.wires.length = x + 1)
 
 theorem cable_at (nets : List ANet) (h : netsOKB nets = true) :
@@ -61,17 +61,17 @@ theorem cable_at (nets : List ANet) (h : netsOKB nets = true) :
       rw [hbus] at hs'
       have := Option.some.inj hs'
       exact ⟨congrArg Bus.lo this, congrArg Bus.ws this⟩
-    | bit bi bn i =>
+    | bit bi bn i j =>
       have hbn : bn = n1.cname := hn0name
       have hnd : ((bitsOf bn (nets.map ANet.item)).map (·.1)).Nodup := by
         rw [bitsOf_items]; exact hbits _ hn0
       obtain ⟨c, hc, hne, _, _, hlo, _, hhi⟩ :=
-        hany (ANet.item ⟨.bit bi bn i, pins⟩) (List.mem_map_of_mem hn0) i rfl hnd
+        hany (ANet.item ⟨.bit bi bn i j, pins⟩) (List.mem_map_of_mem hn0) i rfl hnd
       have hc' : busOf bn cs = some c := hc
       rw [hbn, hbus] at hc'
       have hcl : c.lo = cs[k].lower := by have := Option.some.inj hc'; exact (congrArg Bus.lo this).symm
       have hcw : c.ws = cs[k].wires := by have := Option.some.inj hc'; exact (congrArg Bus.ws this).symm
-      have hbits'' : bitsOf (ANet.item ⟨.bit bi bn i, pins⟩).name (nets.map ANet.item) = busBits bn nets := bitsOf_items bn nets
+      have hbits'' : bitsOf (ANet.item ⟨.bit bi bn i j, pins⟩).name (nets.map ANet.item) = busBits bn nets := bitsOf_items bn nets
       rw [hbits''] at hlo hhi
       simp only [hcl, hcw] at hne hlo hhi
       exact ⟨hne, hlo, hhi⟩
